@@ -86,6 +86,8 @@ def run(ctx, args):
     ptrace = os.path.join(ctx.scratch, "ptrace.ndjson")
     ctx.go_harness("p2p", "^TestVerifTransportP2P$", env={"VERIF_CASES": ppath, "VERIF_TRACE": ptrace}, timeout=1800)
     pev = read_ndjson(ptrace)
+    if any(e["ev"] == "Frame" and "timeout" in (e["send"], e["recv"]) for e in pev):
+        raise Infra("a loopback QUIC transfer hit the transport's write/read deadline (overloaded machine); no verdict")
     events = kev + pev
     trace = os.path.join(ctx.scratch, "trace.ndjson")
     with open(trace, "w") as fh:
